@@ -1,5 +1,6 @@
 import GormModel.Drv.Util
 import GormModel.Model.Identity
+import GormModel.Gen.PreloadFacts
 open Lean
 namespace Gorm.Drv
 
@@ -105,7 +106,7 @@ def handleC11 (op : String) (args : Array Json) : Option Json := do
     some (Json.arr (addrs.map (fun a => Json.arr #[natJ a, natListJ (preloadDirect ps cs a)])).toArray)
   | "entry.walk" =>
     let hops ← (← jArr? (arg args 2)).toList.mapM jStr?
-    some (Json.bool (entryWalk (parseJVal 16 (arg args 1)) (hops.map String.toList)))
+    some (Json.bool (entryWalk Gen.preloadSingleNilCheck (parseJVal 16 (arg args 1)) (hops.map String.toList)))
   | "join.on" =>
     let refs ← (← jArr? (arg args 1)).toList.mapM parseJoinRef
     let qc ← jNat? (arg args 2)
